@@ -78,6 +78,7 @@ var sessFamilies = map[string]SessFamily{
 	"refresh": {"refresh", "MC_SessRefresh", []string{"C09"}},
 	"badfrom": {"badfrom", "MC_SessBadFrom", []string{"C06"}},
 	"badto":   {"badto", "MC_SessBadTo", []string{"C06"}},
+	"genmap":  {"genmap", "MC_GenMap", []string{"C01", "C02"}},
 }
 
 type vector struct {
@@ -88,10 +89,22 @@ type vector struct {
 }
 
 type shapeRec struct {
-	ID   string          `json:"id"`
-	D    json.RawMessage `json:"d"`
-	Cfg  json.RawMessage `json:"cfg"`
-	Root string          `json:"root"`
+	ID      string          `json:"id"`
+	D       json.RawMessage `json:"d"`
+	Cfg     json.RawMessage `json:"cfg"`
+	Root    string          `json:"root"`
+	Run     string          `json:"run"`
+	Group   string          `json:"group"`
+	Role    string          `json:"role"`
+	GChecks json.RawMessage `json:"gchecks"`
+	Pair    json.RawMessage `json:"pair"`
+}
+
+func (s shapeRec) runKey() string {
+	if s.Run != "" {
+		return shapeKey(s.Run)
+	}
+	return shapeKey(s.ID)
 }
 
 var reKey = regexp.MustCompile(`[^a-z0-9]+`)
@@ -214,6 +227,15 @@ func enumerate(w string, fam SessFamily, tier string) ([]shapeRec, []vector, *TL
 	ioutil.WriteFile(cp, mustJSON(cached{shapes, vecs, *res}), 0o644)
 	os.RemoveAll(dir)
 	return shapes, vecs, res, nil
+}
+
+// variantSeed: order of YAML / CLI entries.  Roles "perm<k>" of determinism groups get distinct seeds.
+func variantSeed(s shapeRec, seed int64) int64 {
+	if strings.HasPrefix(s.Role, "perm") {
+		h := sha256.Sum256([]byte(s.Role + s.ID))
+		return seed*1000003 + int64(h[0])<<8 + int64(h[1]) + 1
+	}
+	return 0
 }
 
 type behaviour struct {
@@ -368,8 +390,16 @@ func runSessionFamily(env *pipeline.Env, fam SessFamily, tier string, seed int64
 		var d, c interface{}
 		json.Unmarshal(s.D, &d)
 		json.Unmarshal(s.Cfg, &c)
-		b := behaviour{ID: id, Key: shapeKey(v.Shape) + "/" + s.Root, Shape: v.Shape,
-			Meta: map[string]interface{}{"d": d, "cfg": c, "root": s.Root, "eval": fam.Eval, "shape": v.Shape}}
+		var gchecks, pair interface{}
+		json.Unmarshal(s.GChecks, &gchecks)
+		json.Unmarshal(s.Pair, &pair)
+		unit := v.Shape
+		if s.Group != "" {
+			unit = "group:" + s.Group
+		}
+		b := behaviour{ID: id, Key: s.runKey() + "/" + s.Root, Shape: v.Shape,
+			Meta: map[string]interface{}{"d": d, "cfg": c, "root": s.Root, "eval": fam.Eval, "shape": unit, "shapeid": v.Shape,
+				"run": s.runKey(), "group": s.Group, "role": s.Role, "gchecks": gchecks, "pair": pair}}
 		for _, st := range v.Steps {
 			b.Steps = append(b.Steps, driverStep(st))
 		}
@@ -379,8 +409,13 @@ func runSessionFamily(env *pipeline.Env, fam SessFamily, tier string, seed int64
 	rep.Shapes = len(used)
 	// generate + compile every used shape with the real generator
 	var variants []pipeline.Variant
+	seenRun := map[string]bool{}
 	for _, id := range sortedKeys(used) {
 		s := shapeByID[id]
+		if seenRun[s.runKey()] {
+			continue
+		}
+		seenRun[s.runKey()] = true
 		var d absd.Desc
 		var c absd.Cfg
 		if err := json.Unmarshal(s.D, &d); err != nil {
@@ -390,8 +425,8 @@ func runSessionFamily(env *pipeline.Env, fam SessFamily, tier string, seed int64
 			return nil, fmt.Errorf("shape %s: config: %v", id, err)
 		}
 		// one proto package per shape: gogo's global registry rejects duplicate names in one binary
-		d.Pkg = shapeKey(id)
-		variants = append(variants, pipeline.Variant{Key: shapeKey(id), D: d, C: c})
+		d.Pkg = s.runKey()
+		variants = append(variants, pipeline.Variant{Key: s.runKey(), D: d, C: c, Seed: variantSeed(s, seed)})
 	}
 	res, err := env.GenerateAll(variants, 12)
 	if err != nil {
@@ -401,7 +436,9 @@ func runSessionFamily(env *pipeline.Env, fam SessFamily, tier string, seed int64
 	if err != nil {
 		return nil, err
 	}
+	genByKey := map[string]map[string]interface{}{}
 	for _, r := range res {
+		genByKey[r.Key] = pipeline.ToJSON(r)
 		if r.Compile != "" {
 			rep.CompileFail[r.Key] = r.Compile
 		}
@@ -415,6 +452,11 @@ func runSessionFamily(env *pipeline.Env, fam SessFamily, tier string, seed int64
 		return nil, err
 	}
 	for _, b := range behs {
+		b.Meta["gen"] = genByKey[b.Meta["run"].(string)]
+		// the descriptor the run really used (package renamed per run)
+		if dm, ok := b.Meta["d"].(map[string]interface{}); ok {
+			dm["pkg"] = b.Meta["run"]
+		}
 		f.Write(mustJSON(map[string]interface{}{"id": b.ID, "key": b.Key, "meta": b.Meta, "steps": b.Steps}))
 		f.Write([]byte("\n"))
 	}
